@@ -1,5 +1,7 @@
 import AtreeModel.Array.Iter
 import AtreeModel.Map.Iter
+import AtreeModel.Array.IterObj
+import AtreeModel.Map.IterObj
 import AtreeModel.Replay.Array
 import AtreeModel.Replay.Map
 /-
@@ -16,6 +18,14 @@ import AtreeModel.Replay.Map
     IT map h=<h> kind=loaded ld=<ids>
     IT map h=<h> kind=mut|ro|keys|rokeys|vals|rovals
     IT map h=<h> kind=mutset sets=<keypay:size:pay;...>
+
+    IT arr h=<h> kind=stop fl=<ro|mut|rorange|mutrange|loaded> lo=<lo> hi=<hi> ld=<ids> stop=<k>
+                                            callback loop whose callback answers resume=false at its k-th call
+    IT arr h=<h> kind=obj fl=<…> lo=<lo> hi=<hi> ld=<ids> n=<N>
+                                            iterator object: CanMutate() and N successive Next() calls
+    IT map h=<h> kind=stop fl=<mut|ro|loaded> call=<N|K|V> ld=<ids> stop=<k>
+    IT map h=<h> kind=obj fl=<mut|ro|loaded> ld=<ids> calls=<string over N K V>
+                                            ONE iterator object, Next / NextKey / NextValue interleaved
 
   each followed by the implementation's `OBS` line (and `EFF` / `SLB` lines for `mutset`).  The model's
   expected lines are queued in the `pending` list of the sub-replayer, which compares them.
@@ -57,6 +67,50 @@ def miterErr : MIterErr → String
 
 def noteOwn (s : IterState) (msg : String) : IterState := { s with own := s.own.mismatch msg }
 
+def aiterErr : AIterErr → String
+  | .op e => Dump.aerr e
+  | .slabData => "SlabData:Fatal"
+
+def arrFlavour (fs : List (String × String)) : Arr.Flavour :=
+  let lo := (fnat fs "lo").getD 0
+  let hi := (fnat fs "hi").getD 0
+  match (fget fs "fl").getD "" with
+  | "ro" => .ro
+  | "mut" => .mut
+  | "rorange" => .roRange lo hi
+  | "mutrange" => .mutRange lo hi
+  | _ => .loaded
+
+/-- the result of running the flavour to its end by the LIST functions of Array/Ops.lean and
+    Array/Iter.lean (what the C13 theorems are about) -/
+def arrFlavourList (a : Arr) (ld : SlabID → Bool) : Arr.Flavour → Except AErr (List Elem)
+  | .ro => .ok a.iterReadOnly
+  | .mut => a.iterMutable
+  | .roRange lo hi => a.iterReadOnlyRange lo hi
+  | .mutRange lo hi => a.iterMutableRange lo hi
+  | .loaded => .ok (a.iterLoaded ld)
+
+def optElemStr (sub : ArrState) : Option Elem → String
+  | none => "nil"
+  | some e => Dump.elem (sub.resolve e)
+
+def mapCall : Char → MapCall
+  | 'K' => .nextKey
+  | 'V' => .nextValue
+  | _ => .next
+
+def mapFlavour (fs : List (String × String)) : OMap.IterFlavour :=
+  match (fget fs "fl").getD "" with
+  | "ro" => .ro
+  | "mut" => .mut
+  | _ => .loaded
+
+def mapRetStr (sub : MapState) : MapRet → String
+  | .nil => "nil"
+  | .pair k v => sub.pairStr true (k, v)
+  | .key k => Dump.mkey k
+  | .value v => Dump.elem (sub.resolve v)
+
 /-- `IT arr …` -/
 def itArr (s : IterState) (fs : List (String × String)) (lineNo : Nat) : IterState :=
   let h := (fnat fs "h").getD 0
@@ -86,6 +140,29 @@ def itArr (s : IterState) (fs : List (String × String)) (lineNo : Nat) : IterSt
         { s with arr := ({ sub with pending := [] }).commit h a' c' obs, own := s.own.tag "arr:mutset" }
       | .error e =>
         { s with arr := { sub with pending := ["OBS err:" ++ Dump.aerr e, "EFF -"] } }
+    | "stop" =>
+      let ld := loadedPred (parseIDs ((fget fs "ld").getD "-"))
+      let f := arrFlavour fs
+      let k := (fnat fs "stop").getD 0
+      -- the state machine run to its end must be the list function the theorems talk about
+      let full := a.iterateFlavour ld f (neverStop Elem)
+      let agree : Bool :=
+        match full, arrFlavourList a ld f with
+        | .ok l1, .ok l2 => l1 == l2
+        | .error (.op e1), .error e2 => e1 == e2
+        | _, _ => false
+      let s := if agree then s
+               else s.noteOwn s!"line {lineNo}: iterator object run to its end and the list form of the iteration disagree"
+      let line := match a.iterateFlavour ld f (stopAt Elem k) with
+        | .ok es => "OBS ok:" ++ ArrState.listStr (es.map sub.resolve)
+        | .error e => "OBS err:" ++ aiterErr e
+      { s with arr := { sub with pending := [line] }, own := s.own.tag "arr:stop" }
+    | "obj" =>
+      let ld := loadedPred (parseIDs ((fget fs "ld").getD "-"))
+      let line := match a.stepFlavour ld (arrFlavour fs) ((fnat fs "n").getD 0) with
+        | .ok (cm, l) => "OBS ok:mut=" ++ (if cm then "1" else "0") ++ ";[" ++ ",".intercalate (l.map (optElemStr sub)) ++ "]"
+        | .error e => "OBS err:" ++ aiterErr e
+      { s with arr := { sub with pending := [line] }, own := s.own.tag "arr:obj" }
     | k => s.noteOwn s!"line {lineNo}: unknown IT arr kind {k}"
 
 /-- `IT map …` -/
@@ -141,6 +218,37 @@ def itMap (s : IterState) (fs : List (String × String)) (lineNo : Nat) : IterSt
                  own := s.own.tag "map:mutset" }
       | .error e =>
         { s with map := { sub with pending := ["OBS err:" ++ miterErr e, "EFF -"] } }
+    | "stop" =>
+      let ld := loadedPred (parseIDs ((fget fs "ld").getD "-"))
+      let call := mapCall (((fget fs "call").getD "N").front)
+      let k := (fnat fs "stop").getD 0
+      let f := mapFlavour fs
+      -- the iterator object run to its end must be the list function the theorems talk about
+      let full := m.iterateFlavour cfg ld f .next (neverStop MapRet)
+      let listForm : Except MIterErr (List (MKey × Elem)) :=
+        match f with
+        | .mut => m.iterMutable cfg
+        | .ro => match m.iterReadOnly with | .ok l => .ok l | .error e => .error (.op e)
+        | .loaded => .ok (m.iterLoaded ld)
+      let agree : Bool :=
+        match full, listForm with
+        | .ok l1, .ok l2 => l1 == l2.map (fun p => MapRet.pair p.1 p.2)
+        | .error e1, .error e2 => e1 == e2
+        | _, _ => false
+      let s := if agree then s
+               else s.noteOwn s!"line {lineNo}: map iterator object run to its end and the list form of the iteration disagree"
+      match m.iterateFlavour cfg ld f call (stopAt MapRet k) with
+      | .ok l => { s with map := { sub with pending := ["OBS ok:[" ++ ",".intercalate (l.map (mapRetStr sub)) ++ "]"] },
+                          own := s.own.tag "map:stop" }
+      | .error e => { s with map := { sub with pending := ["OBS err:" ++ miterErr e] }, own := s.own.tag "map:stop" }
+    | "obj" =>
+      let ld := loadedPred (parseIDs ((fget fs "ld").getD "-"))
+      let calls := (((fget fs "calls").getD "").toList).map mapCall
+      match m.stepCalls cfg ld (mapFlavour fs) calls with
+      | .ok (cm, l) =>
+        let line := "OBS ok:mut=" ++ (if cm then "1" else "0") ++ ";[" ++ ",".intercalate (l.map (mapRetStr sub)) ++ "]"
+        { s with map := { sub with pending := [line] }, own := s.own.tag "map:obj" }
+      | .error e => { s with map := { sub with pending := ["OBS err:" ++ miterErr e] }, own := s.own.tag "map:obj" }
     | k => s.noteOwn s!"line {lineNo}: unknown IT map kind {k}"
   | _, _ => s.noteOwn s!"line {lineNo}: IT for unknown map handle {h}"
 
